@@ -60,12 +60,15 @@ type sig struct {
 	afterDropped  bool // a redundant semicolon was dropped just before this token
 }
 
-func significant(src string) []sig {
+func significant(src string) ([]sig, string) {
 	s, toks := tokenizeCSS(src)
 	out := make([]sig, 0, len(toks))
+	kinds := make([]byte, len(toks))
 	ws, cm := false, false
 
-	for _, t := range toks {
+	for i, t := range toks {
+		kinds[i] = 'A' + byte(t.kind)
+
 		switch t.kind {
 		case tWhitespace:
 			ws = true
@@ -77,7 +80,7 @@ func significant(src string) []sig {
 		}
 	}
 
-	return out
+	return out, string(kinds)
 }
 
 // dropRedundantSemicolons removes every ';' whose next significant token is
@@ -162,10 +165,6 @@ func classify(o, m []sig, d int) string {
 			return "merged-across-" + sepName(o[d+1])
 		}
 
-		if d > 0 && !sameTokenKindRaw(o[d-1], m[d-1]) {
-			return "merged-across-" + sepName(o[d])
-		}
-
 		switch {
 		case o[d].kind == tSemicolon && m[d].kind != tSemicolon:
 			return "semicolon-removed"
@@ -192,8 +191,6 @@ func classify(o, m []sig, d int) string {
 
 	return "token-added:" + m[d].kind.String()
 }
-
-func sameTokenKindRaw(a, b sig) bool { return a.kind == b.kind && a.raw == b.raw }
 
 // ── where whitespace is a descendant combinator ─────────────────────────────
 
@@ -382,23 +379,32 @@ func combinatorPositions(o []sig) (pos []int, preludes int) {
 
 // verdict of one input.
 type verdict struct {
-	cell, msg string
+	cell      string
+	msgf      func() string
+	size      int
 	changed   bool   // the minifier changed the text
 	signature string // kinds of all tokens of the input
 	combPos   int
 	preludes  int
 }
 
+// judge runs the minifier on input and compares. An input the minifier hands
+// back unchanged has nothing to compare and is not tokenized at all.
 func judge(input string) (verdict, string) {
 	min := string(javascript.MinifyCSS([]byte(input)))
 
 	var v verdict
 
 	v.changed = min != input
+	if !v.changed {
+		return v, min
+	}
 
-	oAll := significant(input)
+	oAll, signature := significant(input)
+	mAll, _ := significant(min)
+	v.signature = signature
 	o := dropRedundantSemicolons(oAll)
-	m := dropRedundantSemicolons(significant(min))
+	m := dropRedundantSemicolons(mAll)
 
 	n := len(o)
 	if len(m) < n {
@@ -421,7 +427,10 @@ func judge(input string) (verdict, string) {
 
 	if d >= 0 {
 		v.cell = "tokens:" + classify(o, m, d)
-		v.msg = fmt.Sprintf("token sequence changed at token %d: original %s | minified %s", d, dump(o), dump(m))
+		v.size = d
+		v.msgf = func() string {
+			return fmt.Sprintf("token sequence changed at token %d: original %s | minified %s", d, dump(o), dump(m))
+		}
 
 		return v, min
 	}
@@ -436,14 +445,20 @@ func judge(input string) (verdict, string) {
 
 		if o[k].wsBefore && !m[k].wsBefore {
 			v.cell = "descendant:removed:before-" + o[k].kind.String()
-			v.msg = fmt.Sprintf("whitespace between %q and %q is a descendant combinator in a selector and was removed", o[k-1].raw, o[k].raw)
+			l, rr := o[k-1].raw, o[k].raw
+			v.msgf = func() string {
+				return fmt.Sprintf("whitespace between %q and %q is a descendant combinator in a selector and was removed", l, rr)
+			}
 
 			return v, min
 		}
 
 		if !o[k].wsBefore && m[k].wsBefore {
 			v.cell = "descendant:added:before-" + o[k].kind.String()
-			v.msg = fmt.Sprintf("whitespace appeared between %q and %q in a selector, which makes it a descendant combinator", o[k-1].raw, o[k].raw)
+			l, rr := o[k-1].raw, o[k].raw
+			v.msgf = func() string {
+				return fmt.Sprintf("whitespace appeared between %q and %q in a selector, which makes it a descendant combinator", l, rr)
+			}
 
 			return v, min
 		}
@@ -452,59 +467,46 @@ func judge(input string) (verdict, string) {
 	return v, min
 }
 
-func kindSignature(input string) string {
-	_, toks := tokenizeCSS(input)
-	b := make([]byte, len(toks))
-
-	for i, t := range toks {
-		b[i] = 'A' + byte(t.kind)
-	}
-
-	return string(b)
+// violations funnels violations into the report; the witness and the message
+// are only built when they can become the smallest of their cell.
+type violations struct {
+	mu   sync.Mutex
+	best map[string]int
+	r    *report.R
 }
 
-// ── sharded set of signatures ───────────────────────────────────────────────
+func (vs *violations) add(cell string, size int, w func() (witness, string)) {
+	vs.mu.Lock()
+	defer vs.mu.Unlock()
 
-type sigSet struct {
-	mu [64]sync.Mutex
-	m  [64]map[string]struct{}
-}
+	if b, ok := vs.best[cell]; ok && b <= size {
+		vs.r.Violation(cell, size, nil, "")
 
-func newSigSet() *sigSet {
-	s := &sigSet{}
-	for i := range s.m {
-		s.m[i] = map[string]struct{}{}
+		return
 	}
 
-	return s
-}
-
-func (s *sigSet) add(k string) {
-	h := uint32(2166136261)
-	for i := 0; i < len(k); i++ {
-		h = (h ^ uint32(k[i])) * 16777619
-	}
-
-	sh := h & 63
-	s.mu[sh].Lock()
-	s.m[sh][k] = struct{}{}
-	s.mu[sh].Unlock()
+	vs.best[cell] = size
+	wit, msg := w()
+	vs.r.Violation(cell, size, wit, msg)
 }
 
 func main() {
 	r := report.New("exploration")
-	maxLen := r.Pick(5, 6)
+	maxLen := r.Pick(4, 5)
 	repo := os.Getenv("VERIF_REPO")
 
 	if repo == "" {
 		repo = "/repo"
 	}
 
-	r.Rule(fmt.Sprintf("every sequence of 0..%d pieces over the %d-piece alphabet %q, each in the contexts bare / S+\"{c:d}\" (S is a rule prelude) / \"e{\"+S+\"}\" (S is a rule body), through javascript.MinifyCSS; plus every .css file under lib/; distinct = (context, kinds of all CSS tokens of the input incl. whitespace and comments) of inputs whose text the minifier changed",
+	r.Rule(fmt.Sprintf("every sequence of 0..%d pieces over the %d-piece alphabet %q, each in the contexts bare / S+\"{c:d}\" (S is a rule prelude) / \"e{\"+S+\"}\" (S is a rule body), through javascript.MinifyCSS; plus every .css file under lib/ whole and rule by rule; distinct = (context, kinds of all CSS tokens of the input incl. whitespace and comments) of inputs whose text the minifier changed",
 		maxLen, len(alphabet), alphabet))
 	r.Assume("the CSS Syntax Level 3 tokenizer in harness/c34css/csstok.go is the reference for what the tokens of a text are",
 		"a semicolon is redundant when the next token is ';' or '}'",
-		"whitespace is a descendant combinator when it stands between a token that ends a compound selector (ident, hash, ], ), *, &) and one that starts one (ident, hash, ., [, :, *, &) in the prelude of a well-formed qualified rule at top level or directly inside @media/@supports/@layer/@container; preludes the walker does not understand are not judged for combinators (their tokens still are)")
+		"whitespace is a descendant combinator when it stands between a token that ends a compound selector (ident, hash, ], ), *, &) and one that starts one (ident, hash, ., [, :, *, &) in the prelude of a well-formed qualified rule at top level or directly inside @media/@supports/@layer/@container; preludes the walker does not understand are not judged for combinators (their tokens still are)",
+		"url tokens are compared by value, bad-url tokens by kind, everything else by source text")
+
+	vs := &violations{best: map[string]int{}, r: r}
 
 	if r.Replay != "" {
 		var w witness
@@ -512,10 +514,26 @@ func main() {
 			report.Fatal("%v", err)
 		}
 
+		if w.File != "" && w.Context == "file" {
+			b, err := os.ReadFile(filepath.Join(repo, w.File))
+			if err != nil {
+				report.Fatal("%v", err)
+			}
+
+			w.Input = string(b)
+		}
+
 		v, min := judge(w.Input)
 		if v.cell != "" {
-			w.Minified = min
-			r.Violation(v.cell, len(w.Input), w, v.msg)
+			w.Minified = excerpt(min)
+			w.Input = excerpt(w.Input)
+			cell := v.cell
+
+			if w.File != "" {
+				cell = "shipped:" + cell
+			}
+
+			r.Violation(cell, len(w.Input), w, v.msgf())
 		}
 
 		r.Eval(1)
@@ -523,13 +541,11 @@ func main() {
 	}
 
 	k := len(alphabet)
-	sigs := newSigSet()
 
 	var (
 		mu                   sync.Mutex
 		combTotal, prelTotal int64
 		changedTotal         int64
-		sampled              = map[string]bool{}
 	)
 
 	// prefixLen pieces are spread over the CPUs; the remaining pieces are
@@ -541,7 +557,6 @@ func main() {
 		}
 
 		work := enum.Count(k, prefixLen, prefixLen)
-		rest := n - prefixLen
 
 		enum.Par(work, func(wi int) {
 			idx := make([]int, n)
@@ -569,28 +584,26 @@ func main() {
 					input := c.prefix + seq + c.suffix
 					v, min := judge(input)
 					evals++
-					comb += int64(v.combPos)
-					prel += int64(v.preludes)
 
-					if v.changed {
-						changed++
-						sigs.add(c.name + "|" + kindSignature(input))
+					if !v.changed {
+						continue
 					}
 
-					if v.cell != "" {
-						pieces := make([]string, n)
-						for p, a := range idx {
-							pieces[p] = alphabet[a]
-						}
+					comb += int64(v.combPos)
+					prel += int64(v.preludes)
+					changed++
 
-						r.Violation(v.cell, n*1000+len(input), witness{Context: c.name, Pieces: pieces, Input: input, Minified: min}, v.msg)
-					} else if v.combPos > 0 && v.changed && n >= 3 {
-						mu.Lock()
-						if !sampled[c.name] {
-							sampled[c.name] = true
-							r.Sample(map[string]any{"context": c.name, "input": input, "minified": min, "combinator_positions": v.combPos})
-						}
-						mu.Unlock()
+					r.Distinct(c.name + "|" + v.signature)
+
+					if v.cell != "" {
+						vs.add(v.cell, n*1000+len(input), func() (witness, string) {
+							pieces := make([]string, n)
+							for p, a := range idx {
+								pieces[p] = alphabet[a]
+							}
+
+							return witness{Context: c.name, Pieces: pieces, Input: input, Minified: min}, v.msgf()
+						})
 					}
 				}
 
@@ -606,7 +619,7 @@ func main() {
 					p--
 				}
 
-				if p < prefixLen || rest == 0 {
+				if p < prefixLen {
 					break
 				}
 			}
@@ -623,6 +636,12 @@ func main() {
 	r.Set("sequences", enum.Count(k, 0, maxLen))
 	r.Set("max_pieces", maxLen)
 	r.Set("alphabet_size", k)
+
+	// A few enumerated cases written out (fixed choices, so every run shows the same).
+	for _, in := range []string{"a  .b > #c{c:d}", "a :hover , .b{c:d}", "e{a : 1px ;; }", "@media ( a ){c:d}", "e{;;\"s  t\" ;}", ".b/*x*/ .b\n{c:d}"} {
+		v, min := judge(in)
+		r.Sample(map[string]any{"input": in, "minified": min, "combinator_positions_judged": v.combPos, "verdict": map[bool]string{true: "same tokens", false: v.cell}[v.cell == ""]})
+	}
 
 	// Shipped stylesheets.
 	var files []string
@@ -650,42 +669,38 @@ func main() {
 		}
 
 		rel, _ := filepath.Rel(repo, f)
-		v, min := judge(string(b))
+		whole := string(b)
+		v, min := judge(whole)
 		r.Eval(1)
-		sigs.add("file|" + rel)
+		r.Distinct("file|" + rel)
 
 		combTotal += int64(v.combPos)
 		prelTotal += int64(v.preludes)
 
 		if v.cell != "" {
-			r.Violation("shipped:"+v.cell, len(b), witness{Context: "file", File: rel, Input: excerpt(string(b)), Minified: excerpt(min), Detail: "run the check with the file in place; input shown truncated"}, rel+": "+v.msg)
+			r.Violation("shipped:"+v.cell, len(b), witness{Context: "file", File: rel, Input: excerpt(whole), Minified: excerpt(min), Detail: "the replay reads the file itself; the texts shown are truncated"}, rel+": "+v.msgf())
 		}
 
-		shipped = append(shipped, map[string]any{"file": rel, "bytes": len(b), "minified_bytes": len(min), "tokens": len(significant(string(b))), "selector_preludes_judged": v.preludes, "combinator_positions_judged": v.combPos})
+		chunks := topLevelChunks(whole)
+		toks, _ := significant(whole)
+		shipped = append(shipped, map[string]any{"file": rel, "bytes": len(b), "minified_bytes": len(min), "tokens": len(toks), "rules": len(chunks), "selector_preludes_judged": v.preludes, "combinator_positions_judged": v.combPos})
 
-		// every rule of the file on its own as well (cuts at top-level '}')
-		for _, chunk := range topLevelChunks(string(b)) {
+		// every top-level rule of the file on its own as well
+		for _, chunk := range chunks {
 			cv, cmin := judge(chunk)
 			r.Eval(1)
 
 			if cv.changed {
-				sigs.add("chunk|" + kindSignature(chunk))
+				r.Distinct("rule|" + cv.signature)
 			}
 
 			if cv.cell != "" {
-				r.Violation("shipped:"+cv.cell, len(chunk), witness{Context: "file-rule", File: rel, Input: chunk, Minified: cmin}, rel+": "+cv.msg)
+				r.Violation("shipped:"+cv.cell, len(chunk), witness{Context: "file-rule", File: rel, Input: chunk, Minified: cmin}, rel+": "+cv.msgf())
 			}
 		}
 	}
 
-	r.Sample(map[string]any{"shipped": shipped})
-
-	for i := range sigs.m {
-		for s := range sigs.m[i] {
-			r.Distinct(s)
-		}
-	}
-
+	r.Set("shipped", shipped)
 	r.Set("inputs_changed_by_minifier", changedTotal)
 	r.Set("selector_preludes_judged", prelTotal)
 	r.Set("combinator_positions_judged", combTotal)
